@@ -601,6 +601,15 @@ type RKnownAt struct {
 
 func (a *RKnownAt) Equal(rule R, check *CrossFileEqualityCheck) bool {
 	b, ok := rule.(*RKnownAt)
+
+	// The linker wraps imported files in "@layer" blocks that are represented
+	// as known at-rules. Like a written "@layer" rule (see "RAtLayer.Equal"),
+	// such a block is never a removable duplicate of a later one: its first
+	// occurrence fixes the position of the layer in the layer order.
+	if ok && strings.EqualFold(a.AtToken, "layer") {
+		return false
+	}
+
 	return ok && strings.EqualFold(a.AtToken, b.AtToken) && TokensEqual(a.Prelude, b.Prelude, check) && RulesEqual(a.Rules, b.Rules, check)
 }
 
